@@ -185,7 +185,7 @@ class Alg:
         elif k == "field":
             r = ("field", self.canon(t[1]), t[2])
         elif k == "rand":
-            r = t
+            r = ("rand", t[1], t[2], tuple(self.canon(x) for x in t[3]))
         else:
             r = tuple(self.canon(x) if isinstance(x, tuple) else x for x in t)
         self.cmemo[t] = r
@@ -298,6 +298,8 @@ class Alg:
             return self.poly_term(acc)
         if t[0] == "b":
             return t
+        if t[0] == "rand":
+            return ("rand", t[1], t[2], tuple(self.subst_EI(x, i) for x in t[3]))
         return tuple(self.subst_EI(x, i) for x in t)
 
     def has_EI(self, t):
@@ -305,6 +307,8 @@ class Alg:
             return False
         if t[0] in ("E", "I"):
             return True
+        if t[0] == "rand":
+            return any(self.has_EI(x) for x in t[3])
         if t[0] == "b":
             return any(self.has_EI(a) for a in self.bdd.support(t[1]))
         if t[0] == "poly":
@@ -388,7 +392,7 @@ class Alg:
             py = self.pairs(y)
             if px is not None and py is not None:
                 allp = list(px) + [(a, self.poly_term(self.poly(b).neg())) for a, b in py]
-                return self.bdd.var(("PP", self.canon_pairs(allp)))
+                return self.pp(allp)
         cx, cy = self.canon(x), self.canon(y)
         if cx == cy:
             return 1
@@ -401,10 +405,34 @@ class Alg:
         p = self.poly(cx).add(self.poly(cy), -1)
         return self.zero_atom(p)
 
+    def pp(self, pairs):
+        """prod_k e(a_k, b_k) == 1 as the bilinear polynomial sum_k a_k (x) b_k == 0 (formal symbols
+        P (x) Q are the monomials P*Q of the commutative ring: e is bilinear, so this is exact)."""
+        acc = Poly()
+        for a, b in pairs:
+            acc = acc.add(self.poly(a).mul(self.poly(b)))
+        c = acc.const_value()
+        if c is not None:
+            return 1 if c == 0 else 0
+        fz = acc.frozen()
+        if fz[0][1] < 0:
+            fz = acc.neg().frozen()
+        return self.bdd.var(("PP", fz))
+
     def zero_atom(self, p):
         c = p.const_value()
         if c is not None:
             return 1 if c == 0 else 0
+        if len(p) == 1:
+            # a single monomial c*a1^k1*...: zero iff some factor is zero (field / prime-order group)
+            (m, co), = p.items()
+            if len(m) > 1 or (m and m[0][1] > 1):
+                r = 0
+                for a, _ in m:
+                    r = self.bdd.OR(r, self.bdd.var(("Z", (((( a, 1),), 1),))))
+                return r
+            if m and co != 1:
+                return self.bdd.var(("Z", ((m, 1),)))
         fz = p.frozen()
         if fz[0][1] < 0:
             fz = p.neg().frozen()
